@@ -37,9 +37,13 @@ def _seg(count, offset, size):
     return struct.pack("<III", count, offset, size) + b"\0" * 20 + b"\0" * 40
 
 
-def index_file(kind, entries, platform=0, ndats=1, junk=b""):
-    """kind 1: entries [((name_crc, folder_crc), dat_id, offset, synonym)]; kind 2: [(crc, dat_id, offset, synonym)]"""
+def index_file(kind, entries, platform=0, ndats=1, junk=b"", folders=False):
+    """kind 1: entries [((name_crc, folder_crc), dat_id, offset, synonym)]; kind 2: [(crc, dat_id, offset, synonym)]
+    folders (kind 1): entries sorted by (folder, name) hash as retail files are, followed by the folder table (fourth segment:
+    folder hash, file offset of the folder's first entry, 16 x number of its entries, 4 bytes padding)"""
     body = b""
+    if folders and kind == 1:
+        entries = sorted(entries, key=lambda e: (e[0][1], e[0][0]))
     for h, dat, off, syn in entries:
         assert off % 128 == 0 and 0 <= dat < 8
         word = (off // 8) | (dat << 1) | (1 if syn else 0)
@@ -47,7 +51,17 @@ def index_file(kind, entries, platform=0, ndats=1, junk=b""):
             body += struct.pack("<IIII", h[0], h[1], word, 0)
         else:
             body += struct.pack("<II", h, word)
-    ih = struct.pack("<I", 1024) + _seg(1, 2048, len(body)) + b"\0" * 4 + _seg(ndats, 0, 0) + _seg(0, 0, 0) + _seg(0, 0, 0)
+    ftab = b""
+    if folders and kind == 1:
+        i = 0
+        while i < len(entries):
+            j = i
+            while j < len(entries) and entries[j][0][1] == entries[i][0][1]:
+                j += 1
+            ftab += struct.pack("<IIII", entries[i][0][1], 2048 + 16 * i, 16 * (j - i), 0)
+            i = j
+    ih = struct.pack("<I", 1024) + _seg(1, 2048, len(body)) + b"\0" * 4 + _seg(ndats, 0, 0) + _seg(0, 0, 0) + (_seg(0, 2048 + len(body), len(ftab)) if ftab else _seg(0, 0, 0))
+    body += ftab
     ih += struct.pack("<B3x", 0 if kind == 1 else 1) + b"\0" * 656 + b"\0" * 20 + b"\0" * 44
     ih = ih.ljust(1024, b"\0")
     assert len(ih) == 1024
